@@ -242,8 +242,8 @@ def r08_4(ctx, prog, crate, rec):
             continue
         frp, fm = frp[0], fm[0]
         ok = False
-        for bi, t, base in tables.discr_switches(b):
-            if any(s.kind == "call" and s.b == fm.bb for s in b.prov.local_src(base)):
+        sw_ = tables.switch_on_call_result(b, fm)
+        for bi, t in ([sw_] if sw_ is not None else []):
                 arms, otherwise = tables.arm_targets(t)
                 some_t = arms.get(1)
                 none_t = arms.get(0, otherwise)
